@@ -2,17 +2,31 @@
 # usage: ./run.sh <ID> quick|thorough|replay <path>
 # Rebuilds the check binary from /repo's current working tree (hooks on: -tags verif)
 # and runs it. Exit: 0 held / 1 VIOLATION / 2 broken machinery or build failure.
+#
+# Development aid (never used by registered commands): VERIF_REPO=/some/worktree
+# builds against that copy of btcd instead of /repo (mutation testing) and writes
+# evidence under $VERIF_REPO/.verif-evidence instead of /verif/evidence.
 cd "$(dirname "$0")" || exit 2
 . scripts/env.sh
 id="$1"; shift
 lc=$(echo "$id" | tr 'A-Z' 'a-z')
 if [ ! -d "checks/$lc" ]; then echo "BROKEN-CHECK unknown check $id"; exit 2; fi
 mkdir -p bin evidence
+out="bin/$lc"
+modflag=""
+if [ -n "$VERIF_REPO" ]; then
+  tagid=$(echo "$VERIF_REPO" | md5sum | cut -c1-8)
+  sed "s#=> /repo#=> $VERIF_REPO#" go.mod > "bin/alt-$tagid.mod"; cp go.sum "bin/alt-$tagid.sum"
+  modflag="-modfile=bin/alt-$tagid.mod"
+  out="bin/$lc-$tagid"
+  export VERIF_EVIDENCE_DIR="$VERIF_REPO/.verif-evidence"; mkdir -p "$VERIF_EVIDENCE_DIR"
+fi
+export VERIF_OUT="$out" VERIF_MODFLAG="$modflag"
 if [ -x "checks/$lc/run.sh" ]; then exec "checks/$lc/run.sh" "$@"; fi
-if ! $VGO build -tags verif -o "bin/$lc" "./checks/$lc" 2> "bin/$lc.buildlog"; then
-  cat "bin/$lc.buildlog" | head -50
-  echo "BROKEN-CHECK property=$id build failed against /repo working tree"
+if ! $VGO build $modflag -tags verif -o "$out" "./checks/$lc" 2> "$out.buildlog"; then
+  head -50 "$out.buildlog"
+  echo "BROKEN-CHECK property=$id build failed against the btcd working tree"
   exit 2
 fi
 ulimit -v 33554432 2>/dev/null
-exec "bin/$lc" "$@"
+exec "$out" "$@"
